@@ -10,7 +10,7 @@ import (
 
 func init() { Registry["C05"] = runC05 }
 
-const explanationC05 = "Decides structural necessary conditions of C05: (R05.1) the generated error encoder falls back to the default encoder for undeclared errors and for errors without a name, and every declared arm returns (template parse tree); (R05.2/R05.3) the default error encoder writes exactly one response per path in the order negotiate-encoder ≺ formatter ≺ WriteHeader(status of the formatted response) ≺ Encode, and every encodeError in the handler template is followed by return; (R05.4) the default HTTP status table over all flag vectors × special name; (R05.5) non-service errors are re-encoded as goa.Fault in both transports and the error constructors pass the documented (timeout, temporary, fault) triples to fields of the same name; (R05.6) like-named field fidelity of the wire forms; (R05.7) the validation/decoding error constructors are permanent errors with the standard names; (R05.8) the error name→response table built by HTTPEndpointExpr.Prepare has no stale search flag, and the goa-error header constant is shared by encoder and decoder templates; (R05.9) no template range body (error arms, response arms) replaces its element by a constant index into the collection it iterates. NOT decided: name-based dispatch for arbitrary designs end to end (needs execution of generated code), equality of attribute values across the wire."
+const explanationC05 = "Decides structural necessary conditions of C05: (R05.1) the generated error encoder falls back to the default encoder for undeclared errors and for errors without a name, and every declared arm returns (template parse tree); (R05.2/R05.3) the default error encoder writes exactly one response per path in the order negotiate-encoder ≺ formatter ≺ WriteHeader(status of the formatted response) ≺ Encode, and every encodeError in the handler template is followed by return; (R05.4) the default HTTP status table over all flag vectors × special name; (R05.5) non-service errors are re-encoded as goa.Fault in both transports and the error constructors pass the documented (timeout, temporary, fault) triples to fields of the same name; (R05.6) like-named field fidelity of the wire forms; (R05.7) the validation/decoding error constructors are permanent errors with the standard names; (R05.8) the error name→response table built by HTTPEndpointExpr.Prepare has no stale search flag, and the goa-error header constant is shared by encoder and decoder templates; (R05.9) no template range body (error arms, response arms) replaces its element by a constant index into the collection it iterates; (R05.10) error attributes in headers/cookies use the wire name on both sides (shared R02.4); shared R15.1 (client codec choice) and R18.1 (merging never drops a recorded error). NOT decided: name-based dispatch for arbitrary designs end to end (needs execution of generated code), equality of attribute values across the wire."
 
 func runC05(c *an.Ctx) string {
 	r05ErrorEncoder(c)
